@@ -65,7 +65,7 @@ def instances(tier, seed):
         for n, (i, j, k) in enumerate(itertools.product(AX, AX, AX)):
             out.append(dict(name="three:%s:%s%s%s" % (t, i, j, k), args=["three", t, i, j, k], paths=2 if q else 4, base_points=1, **fl))
             if j != i and j != k:
-                for sg in ("+", "-") if (i != k and not q) else ("+",):
+                for sg in ("+", "-") if i != k else ("+",):      # both gimbal-lock signs in both tiers (the two branches are separate code)
                     out.append(dict(name="lock:%s:%s%s%s%s" % (t, i, j, k, sg), args=["lock", t, i, j, k, sg], paths=1, base_points=1))
     # quaternion / angle-axis round trips of a general rotation (all three angles free). The base points are chosen (adjust_seeds) so that the executed paths
     # are the four Spurrier branches with both signs of the canonicalisation; no flipping (every query carries the path condition and flips are slow here)
